@@ -516,6 +516,11 @@ def check_x4(ctx) -> None:
     # table names accepted by as_csv vs produced by __init__
     accepted: Set[str] = set()
     for n in ast.walk(f.node):
+        if isinstance(n, ast.Compare) and isinstance(n.ops[0], ast.NotIn) and isinstance(n.comparators[0], ast.Name):
+            # the accepted names held in a local tuple / list (bound once in the function)
+            dfs = [x.value for x in ast.walk(f.node) if isinstance(x, ast.Assign) and len(x.targets) == 1 and norm(x.targets[0]) == n.comparators[0].id]
+            if len(dfs) == 1 and isinstance(dfs[0], (ast.Tuple, ast.List)):
+                n = ast.Compare(left=n.left, ops=n.ops, comparators=[dfs[0]])
         if isinstance(n, ast.Compare) and isinstance(n.ops[0], ast.NotIn) and isinstance(n.comparators[0], (ast.Tuple, ast.List)):
             for e in n.comparators[0].elts:
                 if isinstance(e, ast.Constant):
@@ -538,6 +543,7 @@ def check_x4(ctx) -> None:
                     v = _class_const(ci, nm)
                     if v is not None:
                         produced.add(v)
+    ctx.require(accepted, 'as_csv: the list of accepted table names was not found (idiom changed)')
     ctx.check(produced <= accepted, 'X4', 'as_csv/accepts-every-table', f'{rel}:{f.node.lineno}',
               f'the constructor produces tables {sorted(produced - accepted)} that as_csv rejects as "unexpected category"',
               fact=f'{len(produced)} tables produced, all accepted')
